@@ -126,7 +126,7 @@ PROPS["C15"] = {
                           "query_api::match_compile::compile_pattern_chain (start-plan arms, entered at the clone of the element's labels)",
                           "query_api::match_compile::apply_label_filters_for_alias"],
     "bounds": {"values": "all i64 / f64 (non-NaN) / bool pairs", "shapes": "(Int,Int) (Float,Float) (Bool,Bool) (Int,Float)",
-               "planner": "first pattern node with 0..3 labels (symbolic ids), with/without an input plan, source bound as node / relationship / unbound, "
+               "planner": "first pattern node with 0..3 labels (symbolic ids; thorough: also 4, 5, 6, 8), with/without an input plan, source bound as node / relationship / unbound, "
                           "first relationship bound or not, pushed-down predicate map absent / empty / non-empty",
                "index maintenance": "one property change per transaction: SET on an existing node, SET on a node created by the transaction, REMOVE; "
                                     "primary label present/absent, index present/absent, old value present/absent; all ids symbolic"},
